@@ -30,6 +30,7 @@ LEVEL_TEXT += " Added clause: whatever the action returns (0, '', [], None) is t
 TECHNIQUE += '; the semantics object stored on a cached model is part of the cache key (= C10.R1 stored-parameter clause)'
 LEVEL_TEXT += ' Added clause: the actions that run are those of the object supplied to this compile().'
 TECHNIQUE += '; foreign exceptions pass the negative lookahead (= C01.R7b)'
+TECHNIQUE += '; store-what-you-raise decided by interpreting rule_call with scripted failing body / action (exception objects with identity); decorator consumption by interpreting Rule.__post_init__; calls keep their rule (R11 = C01.R13)'
 LEVEL_NOTE = ('Trusted: call-graph resolution (unresolved value calls are assumed to reach actions); exception hierarchy '
               'read from tatsu/exceptions.py.')
 EXPLANATION = ('Static analysis of /repo sources, TatSu not imported. rule_call/semantics_call are executed abstractly with '
